@@ -6,7 +6,8 @@
            kind 1 CombineContext   args = primary+1 nothers (other+1)..        (0 = nil)
            kind 2 ConflatedContext args = ninputs input..
      ops : 0            call the function
-           5 i j        call the function; right after its Err() check of others[i] / contexts[i] input node j is cancelled
+           5 i j        call the function; right after its Err() check of others[i] / contexts[i] (ChainAfterFunc: right after
+                        its first AfterFunc registration) input node j is cancelled
            1 n          cancel input node n
            2            call the CancelFunc returned by ConflatedContext
            3 key        Value(key) of the returned context
@@ -18,6 +19,7 @@
 open Core
 module L = Stdlib.List
 module C = Context
+type nat = Datatypes.nat
 
 type mach =
   | MChain of nat * nat * C.cst
@@ -115,7 +117,7 @@ module CtxM = struct
       let at = match s.m with
         | MComb (_, _, b) -> (match b.C.bpcv with C.BCheck (k, _) -> int_of_nat k = i | _ -> false)
         | MConf (_, f) -> (match f.C.fpcv with C.FLoop k -> int_of_nat k = i | _ -> false)
-        | MChain _ -> false in
+        | MChain (_, _, c) -> int_of_nat c.C.cpc = 0 in   (* "check 0" of ChainAfterFunc = its first AfterFunc registration *)
       if at then (s, true)
       else
         let fin = match s.m with
